@@ -146,3 +146,14 @@ void h_sym_one(void) { IN(u16, a); VASSUME(!ISNANH(a)); u16 n = a ^ 0x8000;
 #endif
   HARNESS_END(); }
 #endif
+void h_pow_sign(void) {   /* Annex F: for a negative finite base, pow is negative for odd integer exponents, positive for even ones, NaN for non-integers */
+  IN(u16, x); IN(u16, y); VASSUME(x > 0x8000 && x < 0xFC00 && (y & 0x7FFF) < 0x7C00 && (y & 0x7FFF) != 0);
+  u32 ay = y & 0x7FFF; int e = (int)(ay >> 10) - 15;                    /* unbiased exponent of |y| */
+  int is_int = e >= 10 || (e >= 0 && (ay & ((1u << (10 - e)) - 1)) == 0);
+  int odd = e >= 0 && e <= 10 && is_int && ((((ay & 0x3FF) | 0x400) >> (10 - e)) & 1);
+  u16 r = w_pow(x, y);
+  if (!is_int) VASSERT(ISNANH(r), "pow(negative, non-integer) is NaN");
+  else { VASSERT(!ISNANH(r), "pow(negative finite, integer) is a number"); VASSERT((r >> 15) == (u16)odd, "pow(negative, y) is negative exactly for odd integer y"); }
+  WITNESS("large_odd_exponent", odd && e == 10);
+  HARNESS_END();
+}
